@@ -1257,3 +1257,50 @@ func bufLenOf(v ssa.Value, depth int) ssa.Value {
 	}
 	return nil
 }
+
+// ---------------------------------------------------------------------------
+// C06.alloc: allocation sizes in the decode API are proved non-negative locally
+
+var allocExceptions = map[string]string{
+	"(*pkg/decode.D).FillGaps|make|1": "n is a local counter started at 0 and only incremented by the counting walk",
+	"(*pkg/decode.D).FillGaps|make|2": "n is a local counter started at 0 and only incremented by the counting walk",
+}
+
+func c06Alloc(r *fw.Run, p *fw.Program) {
+	ru := r.Rule("C06.alloc", "in pkg/decode every make with a non-constant size proves the size >= 0 in the same function (a negative count from a decoder must become an error, not a makeslice panic)", 3)
+	for _, fn := range p.FqFunctions() {
+		if pkgRel(fn) != "pkg/decode" {
+			continue
+		}
+		var env *fw.IntervalEnv
+		ord := 0
+		fw.EachInstr(fn, func(ins ssa.Instruction) {
+			ms, ok := ins.(*ssa.MakeSlice)
+			if !ok {
+				return
+			}
+			for _, v := range []ssa.Value{ms.Len, ms.Cap} {
+				if v == nil {
+					continue
+				}
+				if c, isC := v.(*ssa.Const); isC && c.Value != nil && c.Int64() >= 0 {
+					continue
+				}
+				if env == nil {
+					env = fw.NewIntervalEnv(fn)
+				}
+				ord++
+				key := fmt.Sprintf("%s|make|%d", fw.ShortFn(fn), ord)
+				if env.ProvedNonNeg(v, ms.Block()) {
+					ru.Ok(key, p.Rel(ms.Pos()), "size proved >= 0")
+					continue
+				}
+				if reason, ok := allocExceptions[key]; ok {
+					ru.Except(key, p.Rel(ms.Pos()), reason)
+					continue
+				}
+				ru.Fail(key, p.Rel(ms.Pos()), "make with size "+env.Poly.Of(v).String()+" not proved >= 0 in the decode API: a negative count is a runtime panic instead of a decode error")
+			}
+		})
+	}
+}
